@@ -184,6 +184,36 @@ var nan = math.NaN()
 var pinf = math.Inf(+1)
 var ninf = math.Inf(-1)
 
+// MaxJSONDepth is how deep arrays and objects may nest in JSON text handed
+// to the (recursive) validators and parsers. Text nested deeper than this is
+// not treated as JSON.
+const MaxJSONDepth = 512
+
+// JSONTooDeep reports whether the arrays and objects in data nest deeper
+// than MaxJSONDepth. It does not validate; it only counts brackets outside of
+// strings, without recursion.
+func JSONTooDeep(data string) bool {
+	depth := 0
+	for i := 0; i < len(data); i++ {
+		switch data[i] {
+		case '"':
+			for i++; i < len(data) && data[i] != '"'; i++ {
+				if data[i] == '\\' {
+					i++
+				}
+			}
+		case '[', '{':
+			depth++
+			if depth > MaxJSONDepth {
+				return true
+			}
+		case ']', '}':
+			depth--
+		}
+	}
+	return false
+}
+
 func ValueOf(data string) Value {
 	data = strings.TrimSpace(data)
 	num, err := strconv.ParseFloat(data, 64)
@@ -203,7 +233,7 @@ func ValueOf(data string) Value {
 		if gjson.Valid(data) {
 			return Value{kind: Number, data: data, num: num}
 		}
-	} else if gjson.Valid(data) {
+	} else if !JSONTooDeep(data) && gjson.Valid(data) {
 		data = strings.TrimSpace(data)
 		r := gjson.Parse(data)
 		switch r.Type {
